@@ -4,7 +4,7 @@ From Coq Require Import List NArith ZArith Lia Bool Arith ZifyBool ZifyN ZifyNat
 From Coq Require Import Strings.Byte.
 Require Import BS.Bytes BS.Common BS.CommonFacts BS.Api BS.Layout BS.Format BS.FormatFacts.
 Require Import BS.FS BS.FSFacts BS.Meta BS.MetaFacts BS.Header BS.Reader BS.ReaderFacts BS.Index BS.Data BS.DataFacts BS.Seek BS.Series.
-Require Import BS.Spec BS.SpecStep.
+Require Import BS.Spec BS.SpecStep BS.SampleFacts.
 Import ListNotations.
 Close Scope N_scope. Open Scope nat_scope.
 Arguments N.add : simpl never. Arguments N.mul : simpl never. Arguments N.sub : simpl never.
@@ -279,13 +279,13 @@ Proof.
   reflexivity.
 Qed.
 
-Lemma fwim_read_full cb0 :
-  fwim_read (d_file d) p cb0 (metainfo_size p) (len region) (fst x) fs = (fs, Ok l).
+Lemma rwp_full (St:Type) (proc:St -> N -> list byte -> pres St) cb0 (acc:St) :
+  read_with_processor St proc p cb0 region (metainfo_size p) (len region) (fst x) acc
+  = match feed St proc acc l with PCont a => RDone a | PStop a => RStopped a | PPanic => RPanic end.
 Proof.
   destruct fr_sizes as (RL & KL & LE).
   pose proof (wf_payloads p _ W) as WP.
   destruct RD as [Rp Rf Rl Rix Re Rlast Rlegal Rdl Rn].
-  unfold fwim_read. erewrite mbind_ok by (apply (of_read_from_0 _ _ hdr region); exact Rf).
   unfold read_with_processor.
   replace (len region <? metainfo_size p)%N with false
     by (symmetry; apply N.ltb_ge; rewrite KL; unfold len; rewrite RL; nia).
@@ -296,9 +296,9 @@ Proof.
   set (to_read := (len region - metainfo_size p)%N).
   assert (TR : to_read = N.of_nat (length region - Layout.K p * (p + 2))).
   { unfold to_read, len. rewrite KL. lia. }
-  pose proof (chunk_loop_is_scan _ proc_read p cb0
+  pose proof (chunk_loop_is_scan St proc p cb0
                (S (N.to_nat (N.min (to_read / chunkN) (len region / chunkN + 1)))) (N.to_nat chunkN)
-               region (Layout.K p * (p + 2)) (length region - Layout.K p * (p + 2)) (fst x) RN (0%N, [])) as CL.
+               region (Layout.K p * (p + 2)) (length region - Layout.K p * (p + 2)) (fst x) RN acc) as CL.
   cbn [held_slots concat] in CL. rewrite N2Nat.id, <- TR, <- KL in CL.
   rewrite CL; clear CL.
   2:{ lia. }
@@ -336,16 +336,36 @@ Proof.
     { constructor; [apply enc_line_length; exact Hpx|exact F]. }
     rewrite chunks_concat by (try lia; exact FF). exact FF. }
   destruct (full_after_cons_none p x t) as [f2 FA].
-  destruct (sim_lines _ proc_read p cb0 _ (fst x) RN (FNormal (fst x)) (0%N, []) (0 + Layout.K p) []
+  destruct (sim_lines St proc p cb0 _ (fst x) RN (FNormal (fst x)) acc (0 + Layout.K p) []
               [(fst x, N.of_nat (0 * (p + 2)))] 0 0 (MS_N p (fst x)) FL) as (newl & f3 & st3 & A & B & C).
   { rewrite SC. cbn [f_st mk]. rewrite FA. discriminate. }
   rewrite SC in A. cbn [f_lines mk] in A. rewrite app_nil_r in A.
   apply (f_equal (@rev line)) in A. rewrite !rev_involutive in A. subst newl.
-  rewrite C. rewrite feed_read.
-  - cbn [result_of]. unfold ret. rewrite app_nil_r, frev_rev, rev_involutive. reflexivity.
+  rewrite C. unfold l. destruct (feed St proc acc (x :: t)); reflexivity.
+Qed.
+
+Lemma fwim_read_full cb0 :
+  fwim_read (d_file d) p cb0 (metainfo_size p) (len region) (fst x) fs = (fs, Ok l).
+Proof.
+  unfold fwim_read. erewrite mbind_ok by (apply (of_read_from_0 _ _ hdr region); apply (rd_file _ _ _ _ _ _ _ _ RD)).
+  rewrite rwp_full. rewrite feed_read.
+  - unfold ret. rewrite app_nil_r, frev_rev, rev_involutive. reflexivity.
   - exact (proj1 W).
   - destruct W as [_ F]. eapply Forall_impl; [|exact F]. intros a [H _]. exact H.
   - destruct (N.eq_dec (fst x) 0) as [E|E]; [right; exact E|left; lia].
+Qed.
+
+(* C10: a resampling read of the whole series returns the uniform bucket means of its lines *)
+Lemma fwim_read_resampling_full cb0 b : b > 0 ->
+  fwim_read_resampling (d_file d) p cb0 (N.of_nat b) (metainfo_size p) (len region) (fst x) fs = (fs, Ok (resample p b l)).
+Proof.
+  intros Hb. unfold fwim_read_resampling.
+  replace (N.of_nat b =? 0)%N with false by (symmetry; apply N.eqb_neq; lia).
+  erewrite mbind_ok by (apply (of_read_from_0 _ _ hdr region); apply (rd_file _ _ _ _ _ _ _ _ RD)).
+  rewrite rwp_full.
+  destruct (feed_sample_resample p b Hb l) as (s' & E & R).
+  { destruct W as [_ F]. eapply Forall_impl; [|exact F]. intros a [H _]. exact H. }
+  rewrite E. unfold ret. rewrite frev_rev, R. reflexivity.
 Qed.
 End FullRead.
 
@@ -456,4 +476,45 @@ Proof.
   - split; constructor.
   - reflexivity.
   - reflexivity.
+Qed.
+
+(* C10 for the model (whole range, no caches): uniform bucket means of exactly the lines a full read
+   returns, bucket size b = max 1 (m / n) >= 1 where m counts the slots of the byte range, at most
+   2n samples, no overflow for any timestamp magnitude *)
+Theorem read_n_full_ok fs s p hdr ihdr l n :
+  RepH fs s p hdr ihdr l -> l <> [] -> (1 <= n)%N ->
+  exists b, b >= 1 /\ read_n s n Unb Unb fs = (fs, Ok (resample p b l))
+            /\ (len (resample p b l) <= 2 * n)%N.
+Proof.
+  intros [RD W RR RDn] Hne Hn. destruct l as [|x t]; [congruence|].
+  destruct (full_after_cons_none p x t) as [f' FA]. rewrite FA in RD.
+  change (option_map fst (last_opt (x :: t))) with (Some (fst (last t x))) in RD.
+  destruct (fr_sizes p x t W) as (RL & KL & LE).
+  set (region := encode p (x :: t)) in *.
+  set (m := ((len region - metainfo_size p) / line_size p)%N).
+  set (bN := N.max 1 (m / n)).
+  exists (N.to_nat bN). split; [unfold bN; lia|].
+  assert (RN : read_n s n Unb Unb fs = (fs, Ok (resample p (N.to_nat bN) (x :: t)))).
+  { unfold read_n. rewrite RDn. cbn [map sorted_desc negb].
+    replace (n =? 0)%N with false by (symmetry; apply N.eqb_neq; lia).
+    cbn [pick_level]. erewrite mbind_ok by reflexivity.
+    unfold seek_pos. rewrite (rough_new_unb fs (s_data s) p hdr ihdr x t f' RD W).
+    erewrite mbind_ok by (apply mcatch_ok; apply (refine_unb fs (s_data s) p hdr ihdr x t f' RD W); reflexivity).
+    rewrite (rd_p _ _ _ _ _ _ _ _ RD). unfold pos_lines. cbn [p_start p_end p_full].
+    unfold u64_sub. fold region.
+    replace (metainfo_size p <=? len region)%N with true
+      by (symmetry; apply N.leb_le; rewrite KL; unfold len; rewrite RL; nia).
+    cbn [bind]. erewrite mbind_ok by reflexivity. fold m. fold bN.
+    rewrite <- (N2Nat.id bN) at 1.
+    apply (fwim_read_resampling_full fs (s_data s) p hdr ihdr x t f' RD W). unfold bN. lia. }
+  split; [exact RN|].
+  unfold resample, cache_of, len. rewrite map_length, buckets_length by (unfold bN; lia).
+  (* |l| / b <= 2n *)
+  assert (KM : (N.of_nat (length (x :: t)) <= m)%N).
+  { unfold m, len, line_size. rewrite KL, RL.
+    replace (N.of_nat ((Layout.K p + 1 + slots_from p (Some (fst x)) t) * (p + 2)) - N.of_nat (Layout.K p * (p + 2)))%N
+      with (N.of_nat (1 + slots_from p (Some (fst x)) t) * N.of_nat (p + 2))%N by nia.
+    rewrite N.div_mul by lia. pose proof (slots_from_lines p t (Some (fst x))). cbn [length]. lia. }
+  pose proof (at_most_2n (N.of_nat (length (x :: t))) m n KM Hn) as A. fold bN in A.
+  rewrite <- (N2Nat.id bN) in A. rewrite <- Nat2N.inj_div in A. exact A.
 Qed.
